@@ -205,7 +205,6 @@ def handle (j : Json) : Json :=
   let excl :=
     (if CookieExplode p then ["CookieExplode"] else []) ++
     (if EnumGoType p then ["EnumGoType"] else []) ++
-    (if AddlShadow p then ["AddlShadow"] else []) ++
     (if QueryObjAbsent p r then ["QueryObjAbsent"] else []) ++
     []
   let unsupported := (schLeaves sch).any (unsupportedLeaf cell name r) ||
